@@ -34,6 +34,10 @@ def check(ctx):
     r18_2(ctx, m)
     r18_3(ctx, m)
     r18_4(ctx, m)
+    from . import c06
+
+    c06.r06_9(ctx, m)  # a component that was ordered must not look skipped to the caller
+    c06.r06_5(ctx, m)  # tags a skipped component carries from the input play no role
     ctx.not_decided.append("that the degree census recognises exactly the non-chain components (a graph-theoretic statement about biccs/dfs, see C15)")
 
 
@@ -316,7 +320,30 @@ def r18_3(ctx, m):
     for n in walk_own(run.node):
         if isinstance(n, ast.For) and norm(n.iter) in regs:
             tail_opens.append(n)
-    ctx.check(len(regs) >= 1 and len(tail_opens) >= 1, "R18.3", run.where(), "the complete-file concatenation iterates only the registries filled in the success branch", key_of(run, "concat-over-registries"), registries=sorted(regs), loops=len(tail_opens))
+    # graph writes after the chromosome loop: the node set written must come from what the success branch registered
+    from ..core import local_defs
+
+    ld = local_defs(run.node)
+    late = []
+    for n in walk_own(run.node):
+        if isinstance(n, ast.Call) and isinstance(n.func, ast.Attribute) and n.func.attr in ("write_gfa", "write_graph") and getattr(n, "lineno", 0) > m.loop.end_lineno:
+            late.append(n)
+    for c in late:
+        ba = ctx.repo.bound_args(run, c) or {}
+        src = ba.get("set_of_nodes")
+        names = set()
+        frontier = [src] if src is not None else []
+        for _ in range(4):
+            nxt = []
+            for e in frontier:
+                for nm in names_in(e):
+                    if nm not in names:
+                        names.add(nm)
+                        nxt += [d for d in ld.get(nm, []) if d is not None]
+            frontier = nxt
+        fed = bool(names & {r.split(".")[0].split("[")[0] for r in regs})
+        ctx.check(fed, "R18.3", run.where(c), "a graph written after the chromosome loop contains only what the success branch registered (not nodes picked from the whole graph, e.g. by the presence of a BO tag that a skipped component may carry from the input)", key_of(run, f"late-write-source:{norm(src)[:60] if src is not None else None}"), source=norm(src) if src is not None else None)
+    ctx.check(len(regs) >= 1 and (len(tail_opens) >= 1 or bool(late)), "R18.3", run.where(), "the complete-file concatenation iterates only the registries filled in the success branch", key_of(run, "concat-over-registries"), registries=sorted(regs), loops=len(tail_opens))
 
 
 def effect_of(s):
